@@ -391,6 +391,28 @@ func genVars(t *rapid.T, max int) [][2]string {
 	return out
 }
 
+// displayVars: variables documented to change only how things are shown (or
+// nothing the editing commands look at); a check whose property does not depend
+// on the configuration draws a few of them so that it holds "under any" of these.
+var displayVars = [][2]string{{"blink-matching-paren", "on"}, {"show-mode-in-prompt", "on"}, {"mark-modified-lines", "on"}, {"usage-hint-always", "on"},
+	{"colored-stats", "on"}, {"visible-stats", "on"}, {"colored-completion-prefix", "on"}, {"echo-control-characters", "off"}, {"enable-bracketed-paste", "off"},
+	{"multiline-column", "off"}, {"multiline-column-numbered", "on"}, {"cursor-vi-command", "underline"}, {"cursor-vi-insert", "beam"}, {"cursor-emacs", "block"},
+	{"bell-style", "visible"}, {"prompt-transient", "on"}, {"history-preserve-point", "on"}, {"print-completions-horizontally", "on"}}
+
+func genDisplayVars(t *rapid.T) [][2]string {
+	out := [][2]string{}
+
+	if rapid.Bool().Draw(t, "dispvars") {
+		return out
+	}
+
+	for _, i := range rapid.SliceOfNDistinct(rapid.IntRange(0, len(displayVars)-1), 1, 3, rapid.ID[int]).Draw(t, "dispvar") {
+		out = append(out, displayVars[i])
+	}
+
+	return out
+}
+
 func renderVars(mode string, vars [][2]string) string {
 	var sb strings.Builder
 	sb.WriteString(baseInputrc)
